@@ -138,6 +138,28 @@ func execute(c Case, dbg interpreter.Debugger) (r result) {
 	return r
 }
 
+// pcReader is a recording debugger that, like the package's own debugger examples, looks at the
+// instruction a snapshot points to: State.Opcode() and State.RemainingScript() before a step and
+// around an opcode. Attaching it must not make Execute panic.
+type pcReader struct {
+	libexec.Recorder
+	Seen int
+}
+
+func (p *pcReader) look(s *interpreter.State) {
+	_ = s.Opcode()
+	p.Seen += len(s.RemainingScript())
+}
+func (p *pcReader) BeforeStep(s *interpreter.State) { p.look(s); p.Recorder.BeforeStep(s) }
+func (p *pcReader) BeforeExecuteOpcode(s *interpreter.State) {
+	p.look(s)
+	p.Recorder.BeforeExecuteOpcode(s)
+}
+func (p *pcReader) AfterExecuteOpcode(s *interpreter.State) {
+	p.look(s)
+	p.Recorder.AfterExecuteOpcode(s)
+}
+
 const perCaseBound = 60 * time.Second
 
 func growthOps(s []byte) bool {
@@ -178,7 +200,7 @@ func check(ctx *pbt.Ctx, c Case) error {
 		steps = len(bud.Steps)
 		ctx.Label("debugger=budget")
 	} else if c.Dbg {
-		rec := &libexec.Recorder{}
+		rec := &pcReader{}
 		r1 := execute(c, rec)
 		if r1.panicS != "" {
 			return fmt.Errorf("panic (debugger attached): %s", r1.panicS)
@@ -242,7 +264,13 @@ func genCase(t *rapid.T) Case {
 	flags := genFlags(t)
 	f := interp.Flags(flags)
 	var p sgen.Program
-	switch rapid.IntRange(0, 10).Draw(t, "level") {
+	var lc *sgen.LockCtx
+	switch rapid.IntRange(0, 12).Draw(t, "level") {
+	case 11:
+		p = sgen.P2SHLookalike(t, f)
+	case 12:
+		lp, c := sgen.LockTimeProgram(t, f)
+		p, lc = lp, &c
 	case 10:
 		// signature-shaped programs: a few pushes (signature / key sized blobs) with an
 		// OP_CODESEPARATOR at any instruction offset of the unlocking script, optionally ended
@@ -296,6 +324,9 @@ func genCase(t *rapid.T) Case {
 		Seq:     rapid.SampledFrom([]uint32{0, 100, 1 << 22, 1 << 31, 0xfffffffe, 0xffffffff}).Draw(t, "seq"),
 		Amount:  uint64(rapid.IntRange(0, 2).Draw(t, "amount")),
 		Dbg:     rapid.IntRange(0, 4).Draw(t, "dbg") == 0,
+	}
+	if lc != nil {
+		c.Version, c.Lock32, c.Seq = lc.Version, lc.LockTime, lc.Seq
 	}
 	switch rapid.IntRange(0, 9).Draw(t, "idxk") {
 	case 0:
